@@ -349,9 +349,11 @@ def check_case(case, ctx):
         raise
     except Exception as e:  # noqa: BLE001
         import traceback
-        tb = traceback.extract_tb(e.__traceback__)[-1]
-        if "/mc/" in tb.filename:
-            raise
+        frames = traceback.extract_tb(e.__traceback__)
+        lib_frames = [f for f in frames if "/scoda/" in f.filename]
+        if not lib_frames:
+            raise      # the exception never passed through the library: a defect of this harness, not a violation
+        tb = lib_frames[-1]
         R.bad("load_raises", f"{type(e).__name__}: {e} at {os.path.basename(tb.filename)}:{tb.lineno}")
     R.tags = {"kind": case["kind"], "key": case.get("key")}
     return R
